@@ -522,6 +522,35 @@ func RunC13(seed int64, tier, out string) {
 		{"KAlloc", "over-limit/parts-1025-header-lies", cat(u16(1), u16(2), u16(0), asset, u16(1), u16(1025), zeros(1025))},
 		{"KAlloc", "over-limit/locked-1025", cat(u16(1), u16(1), u16(1025), asset, u16(1), u16(1), zeros(1), rep(cat(zeros(32), u16(1), zeros(1), u16(0)), 1025))},
 	}
+	// every value of the message type byte (known types, the first unknown one, the rest of the byte
+	// range sampled) in front of a well-formed body of some message and of an empty body: a type
+	// without a decoder must be refused, not looked up and called
+	{
+		kmsg, kenv := kind("KMsg"), kind("KEnv")
+		for t := 0; t < 256; t++ {
+			if t > 40 && t%17 != 0 && t < 250 {
+				continue
+			}
+			m := g.Msg(wire.Type(g.R.Intn(int(wire.LastType))))
+			var body bytes.Buffer
+			if err := wire.EncodeMsg(m, &body); err != nil || body.Len() == 0 {
+				continue
+			}
+			try(kmsg, "type-sweep", append([]byte{byte(t)}, body.Bytes()[1:]...))
+			try(kmsg, "type-sweep", []byte{byte(t)})
+			e := g.Envelope(wire.Type(g.R.Intn(int(wire.LastType))))
+			var eb, sb, rb bytes.Buffer
+			if perunioser.Serializer().Encode(&eb, e) != nil || wire.AddressDecMap(e.Sender).Encode(&sb) != nil || wire.AddressDecMap(e.Recipient).Encode(&rb) != nil {
+				continue
+			}
+			off := sb.Len() + rb.Len()
+			if off < eb.Len() {
+				c := append([]byte{}, eb.Bytes()...)
+				c[off] = byte(t)
+				try(kenv, "type-sweep", c)
+			}
+		}
+	}
 	// balance matrices whose two dimensions are each legal but whose product is large: header and the
 	// first amounts only (the decoder must answer with an error at the end of input, whatever it
 	// allocates up front), and in the thorough tier complete well-formed matrices
